@@ -78,7 +78,21 @@ def shape(name, buf):
         if m is None:
             return 'no-date'
         return 'imf-date' if IMF_DATE.fullmatch(m.group(1).strip()) else 'other-date'
+    if short == 'HttpHeaderFields':
+        # a header block: the finding about dates applies when the block holds date lines that are not in the preferred form
+        # and the block without those lines round-trips (so that another defect in such a block is still reported)
+        lines = bytes(buf).split(b'\r\n')
+        odd = [l for l in lines if DATE_LINE.match(l) and not IMF_DATE.fullmatch(DATE_LINE.match(l).group(2))]
+        if odd:
+            import importlib
+            cls = getattr(importlib.import_module(name.rsplit('.', 1)[0]), short)
+            rest = b'\r\n'.join(l for l in lines if l not in odd)
+            if not list(roundtrip_failures(cls, rest)):
+                return 'other-date'
     return ''
+
+
+DATE_LINE = re.compile(rb'(?i)(date|expires|last-modified):[ \t]*(.*?)[ \t]*$', re.S)
 
 
 def finding_key(fam, name, pred, kind, buf):
@@ -159,6 +173,13 @@ def extra_vectors(name, rng, n=6):
                     if i < len(v):
                         out.append(v[:i] + bytes([v[i] | (1 << (bit % 8))]) + v[i + 1:])
         return out
+    if short == 'DnsRecordDnskey':
+        # RFC 3110 section 2: exponent length in one octet, or 0 followed by two octets; exponents that are zero, that carry
+        # leading zero octets, and the two-octet form for a short exponent (all of which compose must write in a form its parser reads)
+        mod = b'\xc3' + bytes(rng.getrandbits(8) for _ in range(62)) + b'\x01'
+        head = bytes.fromhex('01000305')
+        return [head + e + mod for e in (b'\x01\x00', b'\x03\x00\x00\x00', b'\x00\x00\x00', b'\x00\x00\x01\x00', b'\x00\x00\x03\x01\x00\x01',
+                                         b'\x04\x00\x01\x00\x01', b'\x03\x01\x00\x01', b'\x01\x03')]
     if short == 'DnsRecordTxt':
         # TXT data beyond 255 octets: several character-strings (DKIM keys, long SPF policies)
         def strings(*ls):
